@@ -43,7 +43,7 @@ def s_case(draw):
     Hs, Ws = draw(st.integers(1, 40)), draw(st.integers(1, 40))
     Hd, Wd = draw(st.integers(1, 40)), draw(st.integers(1, 40))
     ttol = draw(st.sampled_from([0.05, 0.05, 0.01, 0.2]))
-    stol = draw(st.sampled_from([1e-3, 1e-3, 1e-5]))
+    stol = draw(st.sampled_from([1e-3, 1e-3, 1e-5, 1e-2]))
     klass = draw(st.sampled_from(["shift_int", "shift_int", "shift_sub", "shift_sub", "scale_int", "scale_int", "scale_near", "scale_frac", "rot"]))
     if klass == "rot":
         ang = draw(st.sampled_from([90.0, 1.0, 45.0, 0.01, 180.0]))
@@ -171,6 +171,11 @@ def o_paste(case, T):
         if a < 0:
             block = block[:, ::-1]
         A_img[dy0:dy1, dx0:dx1] = block
+    if ttol + stol * max(Hs, Ws, Hd, Wd) >= 0.45:
+        # caller-chosen tolerances this wide allow a drift that crosses a pixel centre: the pixel-identity claim is
+        # only meaningful below that (see ASSUMPTIONS); eligibility and region shapes were still checked above
+        T.exclude("tolerances_allow_half_pixel_drift")
+        return
     B_img = np.full((Hd, Wd), fill, dtype=dtype)
     if dtype == "bool":
         # bool takes a uint8 detour in which "no data" cannot be told from False: compare with fill False
